@@ -122,8 +122,39 @@ def facts():
             'cache_key_is_target': m.group('v4') == 'x'}, line
 
 
+def cache_lifetime():
+    """Where do `local.user_groups_cache.clear()` / `local.user_roles_cache.clear()` sit in DBSessionContextManager._commit_or_rollback?
+    -> (cleared when the session ends with a commit, cleared when it ends with a rollback).  The per-object label cache lives in the
+    SessionCache (cache.obj_labels_cache) and dies with it."""
+    fdef, src, line = load_function('pony/orm/core.py', 'DBSessionContextManager._commit_or_rollback')
+    body = [s for s in fdef.body if not (isinstance(s, ast.Expr) and isinstance(s.value, ast.Constant))]
+    if len(body) != 1 or not isinstance(body[0], ast.Try) or body[0].handlers:
+        raise TranslateError('_commit_or_rollback: body is not try/finally')
+    tr = body[0]
+    WANT = ('local.user_groups_cache.clear()', 'local.user_roles_cache.clear()')
+    def has(stmts, what):
+        return any(ast.unparse(n) == what for s_ in stmts for n in ast.walk(s_) if isinstance(n, ast.Expr))
+    acts = [s_ for s_ in tr.body if isinstance(s_, ast.If) and ast.unparse(s_.test) in ('can_commit', 'not can_commit')]
+    if len(acts) != 1: raise TranslateError('_commit_or_rollback: cannot find `if can_commit`')
+    act = acts[0]
+    yes, no = (act.body, act.orelse) if ast.unparse(act.test) == 'can_commit' else (act.orelse, act.body)
+    res = {}
+    for what in WANT:
+        in_finally = has(tr.finalbody, what)
+        on_commit = in_finally or has(yes, what)
+        on_rollback = in_finally or has(no, what)
+        total = sum(1 for n in ast.walk(fdef) if isinstance(n, ast.Expr) and ast.unparse(n) == what)
+        counted = (1 if in_finally else 0) + (1 if has(yes, what) else 0) + (1 if has(no, what) else 0)
+        if total != counted: raise TranslateError('_commit_or_rollback: `%s` sits somewhere this reader does not understand' % what)
+        res[what] = (on_commit, on_rollback)
+    if res[WANT[0]] != res[WANT[1]]:
+        raise TranslateError('_commit_or_rollback: the group cache and the role cache are cleared on different paths: %r' % (res,))
+    return res[WANT[0]], line
+
+
 def generate():
     f, line = facts()
+    (on_commit, on_rollback), cl_line = cache_lifetime()
     b = lambda v: 'true' if v else 'false'
     return '\n'.join([
         '(* GENERATED by tools/py2coq/c34perm.py from /repo on every run -- do not edit *)',
@@ -132,6 +163,9 @@ def generate():
         'Definition obj_exclusion_tests_entity : bool := %s.' % b(f['obj_exclusion_tests_entity']),
         'Definition missing_reverse_rules_returns_false : bool := %s.' % b(f['missing_reverse_rules_returns_false']),
         'Definition cache_key_is_target : bool := %s.' % b(f['cache_key_is_target']),
+        '(* pony/orm/core.py:%d _commit_or_rollback: are local.user_groups_cache / user_roles_cache cleared when the outermost session ends ... *)' % cl_line,
+        'Definition provider_caches_cleared_on_commit : bool := %s.' % b(on_commit),
+        'Definition provider_caches_cleared_on_rollback : bool := %s.' % b(on_rollback),
         ''])
 
 
